@@ -1,5 +1,6 @@
 SPECIFICATION TraceSpec
 CONSTANTS
+    AcceptLoopSurvives = FALSE
     EnvSet <- Envs
     ProxySyntaxSilent = TRUE
     MaxConns = 2
